@@ -360,7 +360,7 @@ impl Property for C12 {
                     let v = m.resolve(*amt, *from, *spender);
                     let usable = m.usable(*from, *spender);
                     if let Some((al, e)) = m.allow.get(&(*from, *spender)) {
-                        if *al > 0 && v > 0 && (*e == m.seq || *e + 1 == m.seq) {
+                        if *al > 0 && v > 0 && (*e == m.seq || e.checked_add(1) == Some(m.seq)) {
                             boundary = true;
                             cx.label(if *e == m.seq { "delegated_at_expiration_ledger" } else { "delegated_one_after_expiration" });
                         }
@@ -399,7 +399,7 @@ impl Property for C12 {
                     let v = m.resolve(*amt, *from, *spender);
                     let usable = m.usable(*from, *spender);
                     if let Some((al, e)) = m.allow.get(&(*from, *spender)) {
-                        if *al > 0 && v > 0 && (*e == m.seq || *e + 1 == m.seq) {
+                        if *al > 0 && v > 0 && (*e == m.seq || e.checked_add(1) == Some(m.seq)) {
                             boundary = true;
                             cx.label(if *e == m.seq { "delegated_at_expiration_ledger" } else { "delegated_one_after_expiration" });
                         }
